@@ -66,7 +66,7 @@ pub fn continuation_query(c: &str, w: &str, size: u64) -> String {
     format!("{}({}, B, K).", c, workloads::goal(w, size).replace(", R)", ", _)"))
 }
 
-fn binding<'a>(b: &'a str, name: &str) -> Option<&'a str> {
+pub fn binding<'a>(b: &'a str, name: &str) -> Option<&'a str> {
     b.split(';').find_map(|seg| seg.strip_prefix(name).and_then(|r| r.strip_prefix('=')))
 }
 
